@@ -74,6 +74,19 @@ JumpRejected(pre, req, r) ==
   (rb1.some /\ rb1.v.num # 0 /\ (rb1.v.num + 1) * SizeOf(rb1.v.szx) > BufLen(pre) + MaxReserve) =>
      (r.out.k = "err" /\ BufOf(r.post) = BufOf(pre))
 
+\* C11, "a situation it cannot serve is reported as a handling error": a block that starts at or beyond the end
+\* of a non-empty body - the cached one, or the one the application has just produced for a first request that
+\* names a later block - does not exist.  Where the specification refuses such a request, so must the code
+\* (it must not answer with an empty block, and thereby end somebody's transfer).
+BeyondEndOk(e, pre, x, r) ==
+  LET req == MsgOf(e.req)
+      b2 == FirstBlock(req, OPT_BLOCK2)
+      app == OptMsg(e.app) IN
+  /\ (e.op = "ireq" /\ x.out.k = "err" /\ b2.some /\ pre.cached.some /\ b2.v.num > 0
+        /\ b2.v.num * SizeOf(b2.v.szx) >= Len(pre.cached.v.pay)) => r.out.k # "ok"
+  /\ (e.op = "iresp" /\ x.out.k = "err" /\ app.some /\ pre.b2.some /\ pre.b2.v.num > 0
+        /\ pre.b2.v.num * SizeOf(pre.b2.v.szx) >= Len(app.v.pay)) => r.out.k # "ok"
+
 \* C11, every call
 C11Ok(e, pre, r, hadResp) ==
   /\ r.out.k # "panic"
@@ -211,7 +224,7 @@ RetainOk(x, r) ==
 
 Violated(e, pre, x, r, bsz) ==
   LET hadResp == IF e.op = "ireq" THEN NewResponse(MsgOf(e.req)).some ELSE e.app.some IN
-  (IF C11Ok(e, pre, r, hadResp) THEN {} ELSE {"C11"})
+  (IF C11Ok(e, pre, r, hadResp) /\ BeyondEndOk(e, pre, x, r) THEN {} ELSE {"C11"})
   \cup (IF C12Ok(e, r) THEN {} ELSE {"C12"})
   \cup (IF r.out.k = "panic" \/ (C09Ok(e, pre, x, r) /\ AckKept(e, r)) THEN {} ELSE {"C09"})
   \cup (IF r.out.k = "panic" \/ C08ReqOk(e, pre, x, r) THEN {} ELSE {"C08"})
